@@ -59,6 +59,12 @@ CHECKS = {
  "C30": dict(cat="exploration", tech="exhaustive enumeration of both precision settings (-5..45) in fresh subprocesses + Hypothesis sequences of settings within one process; oracle = documented ranges and exact decimal arithmetic",
    text="Every integer value of each variable and the boundary cross product (thorough: all 51x51 pairs), each in a fresh process: documented accept/reject (error 0-4-1-1), stored values quantised to the scale, out-of-precision values rejected, sums/differences equal exact decimals; sequences of settings in one process must behave like fresh processes.",
    note="Returned values are float64, compared with the exact decimal result within a few ulps; a width smaller than the scale may be rejected with the configuration error.", ref="§3 C30"),
+ "C08": dict(cat="exploration", tech="exhaustive bulk enumeration of periods and dates of a year range against Python datetime + Hypothesis time series (timeshift inverse/injectivity, flow/stock)",
+   text="Every period of every indicator and every date of 1996-2032 (thorough 1900-2100) through period_indicator, getyear/getmonth/dayofmonth/dayofyear, time_agg, datediff, dateadd and timeshift, compared with the proleptic Gregorian / ISO-8601 calendars of Python; generated series with gaps for shifts in -60..60.",
+   note="Complete for the year range named; operator/argument combinations the offline sources do not settle (time_agg from weeks, month/year dateadd clamping) are excluded.", ref="§3 C08"),
+ "C21": dict(cat="exploration", tech="exhaustive bulk enumeration of every period x documented input spelling x output format for a year range; round trip; Python-vs-SQL differential",
+   text="All valid periods of 1996-2032 (thorough 1900-2100) in every documented spelling and all four output formats: accepted, rendered as documented (or VTL error where the format cannot express the indicator), rendered value re-read to the same value, Python and SQL implementations agree; plus a sample of years 1-9999.",
+   note="Paddings the docs do not show follow the month example of the same format; known finding for years below 1000.", ref="§3 C21"),
 }
 NOT_YET = "check not built yet in this session (work in progress, see DESIGN.md §5)"
 
